@@ -18,6 +18,8 @@ from . import BaseEngine, Violation
 mido = bootstrap()
 import mido.ports as mports  # noqa: E402
 import mido.backends._parser_queue as pqmod  # noqa: E402
+import mido.sockets as msock  # noqa: E402
+from simkit import simnet  # noqa: E402
 
 TRACED = ('mido/ports.py', 'mido/parser.py', 'mido/tokenizer.py', 'mido/sockets.py',
           'mido/backends/_parser_queue.py', 'mido/midifiles/tracks.py', 'mido/midifiles/midifiles.py',
@@ -253,6 +255,15 @@ class PortsConc(BaseEngine):
         base['receivers'] = []
         return base
 
+    def gen_sock_close(self, prop, seed, idx, rng):
+        """A reader thread iterating a SocketPort while another thread closes it (peer connected, possibly silent)."""
+        base = self.gen(prop, seed, idx, 'quick')
+        base['kind'] = 'sock_close'
+        base['senders'] = [[[pick(rng, MSG_SHAPES[:8]), rng.randrange(128)] for _ in range(rng.randint(0, 3))]]
+        base['receivers'] = [[['iter', -1, 50]]]
+        base['close_after'] = rng.randint(0, 40)
+        return base
+
     def gen_raw(self, prop, seed, idx, wire, rng):
         """Plan for C05 mode B: a driver thread feeds `wire` to a ParserQueue in chunks, 1-2 consumers;
         or (every third) several producers each feeding whole encodings, several per put_bytes call."""
@@ -286,6 +297,9 @@ class PortsConc(BaseEngine):
             pqmod.RLock, pqmod.queue = saved[3:5]
             mports.set_sleep_time(saved[5])
             self._saved = None
+        if getattr(self, '_saved_sock', None):
+            msock.socket, msock.select = self._saved_sock
+            self._saved_sock = None
         simsync.set_sched(None)
         _CUR['sched'] = None
         if not gc.isenabled():
@@ -309,6 +323,21 @@ class PortsConc(BaseEngine):
         pqmod.RLock = simsync.SimRLock
         pqmod.queue = simsync.QueueShim
         mports.set_sleep_time(plan['sleep_time'])
+        self._saved_sock = None
+        if plan['kind'] == 'sock_close':
+            self._saved_sock = (msock.socket, msock.select)
+            net = simnet.SimNet(sched, log)
+            sel = simnet.SelectShim(net)
+
+            def blocked_forever(rlist, sel=sel, net=net, sched=sched):
+                s = simsync._active()
+                if s is None:
+                    raise SimAbort()
+                s.block(sel, 'select.wait')      # nobody will ever wake it: a select() without timeout on a silent peer
+            sel.blocked_forever = blocked_forever
+            msock.socket = simnet.SocketShim(net)
+            msock.select = sel
+            self._net = net
         simsync.set_sched(sched)
         _CUR['sched'] = sched
         gc.disable()
@@ -354,6 +383,16 @@ class PortsConc(BaseEngine):
             port = mports.MultiPort(subs, yield_ports=(kind == 'multi_yield'))
         elif kind in ('twin_parsers', 'twin_files'):
             port = None
+        elif kind == 'sock_close':
+            net = self._net
+            lst = net.socket()
+            lst.bind(('h', 1))
+            lst.listen(1)
+            raw = net.socket()
+            raw.connect(('h', 1))
+            conn, (chost, cport) = lst.accept()
+            port = msock.SocketPort(chost, cport, conn=conn)
+            self._raw = raw
         elif kind == 'pair':
             # two independent device ports used side by side: nothing sent on one may show up on the other
             subs = [dev(k if k != 'echo' else 'locked_old') for k in (plan['sub_kinds'] * 2)[:2]]
@@ -474,8 +513,17 @@ class PortsConc(BaseEngine):
             record(f'S{si}', 'files_done', sched.total_steps, len(out))
             done['senders'] += 1
 
+        def closer_body():
+            for _ in range(plan.get('close_after', 0)):
+                _yield('closer.wait')
+            inv, _ = guarded('S0', 'close', port.close)
+            record('S0', 'close', inv, None)
+            done['senders'] += 1
+
         def sender_body(si):
             def body():
+                if kind == 'sock_close':
+                    return closer_body()
                 if kind == 'twin_files':
                     return files_body(si)
                 if kind == 'twin_parsers':
@@ -658,6 +706,10 @@ class PortsConc(BaseEngine):
         def on_idle():
             # nothing is runnable: only sleepers (receivers polling inside a blocking receive) remain
             hungry = [(th, p) for th, p in waiting.items() if p is not None and port_deliverable(p) > 0]
+            if kind == 'sock_close':
+                # the reader must wake up and notice that the port was closed under it
+                progress['idle'] += 1
+                return 'continue' if progress['idle'] < 40 else 'stop'
             if done['senders'] >= n_send and not hungry:
                 return 'stop'       # quiescent: nobody left who could make progress
             progress['idle'] += 1
@@ -674,6 +726,14 @@ class PortsConc(BaseEngine):
             return 'continue'
         sched.on_idle = on_idle
 
+        sock_expected = []
+        if kind == 'sock_close':
+            raw = self._raw
+            for seq, (shape, pad) in enumerate(plan['senders'][0]):
+                m = make_msg(shape, 0, seq, pad)
+                sock_expected.append(snap_msg(m))
+                raw.tx.inflight += bytes(m.bytes())
+            self._net.deliver(raw.tx)
         twin_ref = {}
         twin_files = []
         if kind == 'twin_files':
@@ -731,6 +791,28 @@ class PortsConc(BaseEngine):
                             f'{progress["starved"][0]} stayed inside a blocking receive for 25 idle rounds of the '
                             f'simulated clock while {progress["starved"][1]} item(s) were deliverable on its port')
 
+        if kind == 'sock_close':
+            for t in sched.threads:
+                if isinstance(t.exc, Violation):
+                    raise t.exc
+            stuck = [t.name for t in sched.threads if t.state_at_abort in ('blocked', 'sleeping')]
+            if stuck:
+                raise Violation('sock:close-with-blocked-reader',
+                                f'one thread iterates a SocketPort, another calls close(): {stuck} never finished '
+                                f'(run ended: {sched.abort_reason})')
+            net = self._net
+            while net.next_event_time() is not None:
+                sched.now = max(sched.now, net.next_event_time())
+                net.pump()
+            if not (self._raw.rx.eof or self._raw.rx.rst):
+                raise Violation('sock:close-not-seen-by-peer', 'the port was closed while a reader thread was iterating '
+                                                               'it, but the peer never reached end-of-stream')
+            got_msgs = [snap_msg(res) for th, op, inv, ret, res, tgt in received]
+            if got_msgs != sock_expected[:len(got_msgs)]:
+                raise Violation('sock:wrong-messages', f'reader got {got_msgs!r}, delivered were {sock_expected!r}')
+            cov.add('sock_close')
+            stats['probe:socket_closed_under_reader'] += 1
+            return
         if kind == 'twin_files':
             if sched.abort_reason not in ('stepcap',):
                 for si, outs in sorted(twin_out.items()):
